@@ -408,10 +408,14 @@ def render_fragment(R, m, atoms, descriptors, style=None, slash=None, annot=None
             r = R.random()
             if r < 0.4:
                 before.append(d)
-            elif r < 0.8 or len(kids) < 2:
+            elif r < 0.8 or not kids:
                 after.append(d)
             else:
                 late.append(d)
+        # every child in parentheses (then the late descriptors close the atom: 'C(C)(C(=O)OC)[<]')
+        paren_all = bool(late) and (len(kids) < 2 or R.random() < 0.4)
+        if paren_all and len(kids) >= 2:
+            info['desc_after_two_closed_branches'] = True
         if rd and (before or after):
             info['desc_next_to_ring_digit'] = True
         if rd and after and any(t[0] in '=#-' for t in rd):
@@ -430,13 +434,13 @@ def render_fragment(R, m, atoms, descriptors, style=None, slash=None, annot=None
             elif bs:
                 out.append(('bond', bs, None))
         for k, v in enumerate(kids):
-            last = (k == len(kids) - 1)
+            last = (k == len(kids) - 1) and not paren_all
             if not last:
                 out.append(('open', '(', None))
                 bond(u, v)
                 write(v)
                 out.append(('close', ')', None))
-                if late and k == len(kids) - 2:
+                if late and k == len(kids) - (1 if paren_all else 2):
                     out.extend(('desc', d, (u, d)) for d in late)
                     late = []
             else:
@@ -524,12 +528,20 @@ def build_cgsmiles(R, m, owner, kinds=('$', '><'), style=None, names=None, feats
             posmap[i] = (names[f], pp)
         frs.append('#%s=%s' % (names[f], s))
     feats.update(k for k, v in rinfo.items() if v and k != 'slashes')
+    # the generator's own record of what is written where: [fragment name, atom position, ['$a2', ...]]
+    digit = {'=': '2', '#': '3', '-': '1', '.': '0'}
+    written = []
+    for f in range(nfr):
+        for i, ds in desc[f].items():
+            if ds:
+                written.append([names[f], posmap[i][1],
+                                sorted(d[d.index('[') + 1:-1] + (digit[d[0]] if d[0] in digit else '1') for d in ds)])
     order = list(range(nfr))
     R.shuffle(order)
     frs_s = '{' + ','.join(frs[f] for f in order) + '}'
     base_s = write_base(R, base, names)
     return base_s + '.' + frs_s, dict(base=base, nfr=nfr, names=names, frag_block=frs_s, posmap=posmap,
-                                      base_s=base_s, frag_defs=frs, slashes=rinfo.get('slashes', []))
+                                      base_s=base_s, frag_defs=frs, slashes=rinfo.get('slashes', []), written=written)
 
 
 def write_base(R, base, names, orders_sym=None, tokens=None, late_tokens=None):
@@ -595,7 +607,7 @@ def write_base(R, base, names, orders_sym=None, tokens=None, late_tokens=None):
                 out.append(s + '(')
                 write(v)
                 out.append(')')
-                if late and k == len(kids) - 2:
+                if late and k == len(kids) - (1 if paren_all else 2):
                     out.append(late)    # descriptors written after the last closed branch of the node
                     late = ''
             else:
